@@ -898,6 +898,52 @@ static int mode_setup(int cases)
     return 0;
 }
 
+// ---------------------------------------------------------------------------------------------- operator symmetry inside a solver object
+// C05 on the operators a GMGPolar object actually holds after setup() — also after histories in which the boundary mode, the strategy
+// or the size was changed through the setters and setup() was called again: on the unknowns that are non-Dirichlet in the CONFIGURED
+// mode, <A x, y> = <x, A y> and <A x, x> > 0 on every level (A x := -(residual with zero right-hand side))
+static int mode_opsym(int cases)
+{
+    Rng rng(seed_from_env());
+    for (int c = 0; c < cases; c++) {
+        Opts o = random_solve_opts(rng, rng.pick(std::vector<int>{3, 4}));
+        o.set("cacheDensityProfileCoefficients", 1); o.set("cacheDomainGeometry", 1); o.set("divideBy2", 0);
+        GMGPolar g;
+        o.apply(g);
+        g.setup();
+        std::string hist = "setup,";
+        int steps = rng.range(0, 2);
+        for (int q = 0; q < steps; q++) {
+            const char* key = rng.pick(std::vector<const char*>{"DirBC_Interior", "DirBC_Interior", "stencilDistributionMethod", "nr_exp", "extrapolation"});
+            int v = std::string(key) == "nr_exp" ? rng.range(3, 4) : std::string(key) == "extrapolation" ? rng.range(0, 3) : rng.range(0, 1);
+            set_one(g, o, key, v);
+            g.setup();
+            hist += std::string(key) + "=" + std::to_string(v) + ",setup,";
+        }
+        GMGPolarVerif v(g);
+        bool bc = g.DirBC_Interior();
+        for (int l = 0; l < v.levels(); l++) {
+            Level& lv = v.level(l);
+            const PolarGrid& gr = lv.grid();
+            int n = gr.numberOfNodes();
+            Vector<double> x(n), y(n), z(n), ax(n), ay(n);
+            for (int i = 0; i < n; i++) { x[i] = rng.uniform(-1, 1); y[i] = rng.uniform(-1, 1); z[i] = 0.0; }
+            for (int j = 0; j < gr.ntheta(); j++) {
+                x[gr.index(gr.nr() - 1, j)] = 0.0; y[gr.index(gr.nr() - 1, j)] = 0.0;
+                if (bc) { x[gr.index(0, j)] = 0.0; y[gr.index(0, j)] = 0.0; }
+            }
+            lv.computeResidual(ax, z, x);
+            lv.computeResidual(ay, z, y);
+            double axy = 0, xay = 0, axx = 0, scale = 0;
+            for (int i = 0; i < n; i++) { axy += -ax[i] * y[i]; xay += -ay[i] * x[i]; axx += -ax[i] * x[i]; scale += std::abs(ax[i] * y[i]) + std::abs(ay[i] * x[i]); }
+            printf("ORC case=%d level=%d of=%d operator_symmetry_defect=%s energy=%s scale=%s bc=%d hist=%s opts=[%s]\n", c, l, v.levels(), hex(std::abs(axy - xay)).c_str(), hex(axx).c_str(), hex(scale).c_str(), (int)bc,
+                   hist.c_str(), o.str().c_str());
+        }
+    }
+    printf("end\n");
+    return 0;
+}
+
 int main(int argc, char** argv)
 {
     std::string mode = argc > 1 ? argv[1] : "";
@@ -912,6 +958,7 @@ int main(int argc, char** argv)
     if (mode == "rhs") return mode_rhs(a);
     if (mode == "order") return mode_order(a, b);
     if (mode == "setup") return mode_setup(a);
+    if (mode == "opsym") return mode_opsym(a);
     fprintf(stderr, "usage: h_solver cycle|fmg|solve|reuse ...\n");
     return 2;
 }
